@@ -597,6 +597,8 @@ def code_rules(chk, repo):
                        ('pgradd/ThermoChem/raw_data.py', 'ConstantSpline'),
                        ('pgradd/ThermoChem/base.py', 'ThermochemBase')):
         for s_ in repo.cls(rel, cname).body:
+            if not isinstance(s_, ast.FunctionDef):
+                continue
             if cname == 'ThermochemBase' and s_.name not in (
                     '__init__', 'check_range', 'get_range', 'get_GoRT'):
                 continue    # dimensional getters are C07's business
